@@ -298,6 +298,7 @@ func rsIdentity(r *sim.Record) []V {
 		return nil
 	}
 	var out []V
+	var stored []*edsv1.ExtendedDaemonSetReplicaSet // replica sets this very reconcile created (the store applied the call)
 	for _, c := range r.Calls {
 		if c.Verb != "create" || c.Kind != "ExtendedDaemonSetReplicaSet" {
 			continue
@@ -307,6 +308,14 @@ func rsIdentity(r *sim.Record) []V {
 			continue
 		}
 		h := oracle.TemplateHash(&pre.Spec.Template)
+		for _, rs := range stored {
+			if rs.Annotations[oracle.AnnTemplateHash] == obj.Annotations[oracle.AnnTemplateHash] {
+				out = append(out, V{"C13", "rs-identity", "C13/rs-identity/second-replica-set-for-template/same-reconcile", fmt.Sprintf("replica set %s created although the same reconcile had already created %s for the same template (hash %s)", obj.Name, rs.Name, h)})
+			}
+		}
+		if c.Applied {
+			stored = append(stored, obj)
+		}
 		for _, rs := range ownRS(r.Pre, pre) {
 			// a replica set that is being deleted but still exists (finalizer) counts: "while one exists"
 			if rs.Annotations[oracle.AnnTemplateHash] == h {
